@@ -70,7 +70,8 @@ def opOf? (j : Json) : Except String Op := do
       .ok (.stack incl)
   | "set" => .ok (.set (← getNat j "sid") (← getStr j "col") (← valueOf? (← field j "v")))
   | "map" => .ok (.map (← getNat j "sid") (← getStr j "col") (← fnOf? (← field j "f")))
-  | "loc_set" => .ok (.locSet (← getNat j "sid") (← getArr boolOf? j "mask") (← getArr strOf? j "cols") (← cellOf? (← field j "v")))
+  | "loc_set" => .ok (.locSet (← getNat j "sid") (← getArr boolOf? j "mask") (← boolOf? (fieldD j "single" (Json.bool false)))
+                        (← getArr strOf? j "cols") (← cellOf? (← field j "v")))
   | "loc_map" => .ok (.locMap (← getNat j "sid") (← getArr boolOf? j "mask") (← getArr strOf? j "cols") (← fnOf? (← field j "f")))
   | "attr_set" => .ok (.attrSet (← getNat j "sid") (← getStr j "name") (← valueOf? (← field j "v")))
   | "attr_map" => .ok (.attrMap (← getNat j "sid") (← getStr j "name") (← fnOf? (← field j "f")))
@@ -108,7 +109,8 @@ def handle (op : String) (j : Json) : Except String Json := do
       ("wf", Json.bool (w.lists.all wfListB)),
       ("steps", listToJson (fun (p : MapW × Option Err) =>
           obj [("err", errToJson p.2), ("lists", listToJson tlistToJson p.1.lists)]) tr),
-      ("fresh", listToJson Json.bool (freshTrace w ops))]))
+      ("fresh", listToJson Json.bool (freshTrace w ops)),
+      ("latest", listToJson Json.bool (latestTrace w ops))]))
   | "c12.spec" =>
     -- the specification run: the same history, told which calls raised (observed on the implementation);
     -- `impl` = the implementation's lists after every call; the comparison is made here, on `Tbl`s
